@@ -460,7 +460,8 @@ class XMIResource(Resource):
                 for key, val in value.items():
                     entry = Element(feat_name)
                     entry.attrib['key'] = key
-                    entry.attrib['value'] = val
+                    if val is not None:
+                        entry.attrib['value'] = val
                     node.append(entry)
             elif feat.is_attribute:
                 etype = feat._eType
